@@ -346,7 +346,7 @@ func TestC25(t *testing.T) {
 		}
 		run(cs)
 	}
-	c25RealTime(rec, s, r, env.Pick(6, 24)/env.NBatch+1)
+	c25RealTime(rec, s, r, env.Pick(8, 32)/env.NBatch+2)
 }
 
 func c25GenOp(r *rand.Rand, nodes, wids []string) c25Op {
@@ -401,11 +401,15 @@ func c25RealTime(rec *vkit.Rec, s *stores, r *rand.Rand, n int) {
 			}
 			useNode := i%2 == 0
 			key := "/status/app/web/" + node + "/" + id
+			// every fourth case: the second report carries a CHANGED value (same ttl): the status must live a full ttl
+			// from that latest report as well
+			changed := i%4 == 3
+			healthy := true
 			report := func() error {
 				if useNode {
 					return st.SetNodeStatus(ctx, &types.Node{NodeMeta: types.NodeMeta{Name: node, Podname: "p"}}, 30)
 				}
-				return st.SetWorkloadStatus(ctx, &types.StatusMeta{ID: id, Appname: "app", Entrypoint: "web", Nodename: node, Running: true, Healthy: true}, 30)
+				return st.SetWorkloadStatus(ctx, &types.StatusMeta{ID: id, Appname: "app", Entrypoint: "web", Nodename: node, Running: true, Healthy: healthy}, 30)
 			}
 			if useNode {
 				key = "/status:node/" + node
@@ -427,12 +431,18 @@ func c25RealTime(rec *vkit.Rec, s *stores, r *rand.Rand, n int) {
 			t0 := time.Now()
 			time.Sleep(3200 * time.Millisecond)
 			before := remaining()
+			if changed {
+				healthy = false
+			}
 			if err := report(); err != nil {
 				return
 			}
 			after := remaining()
 			elapsed := time.Since(t0)
 			kind := map[bool]string{true: "node", false: "workload"}[useNode]
+			if changed {
+				kind += "-changed-value"
+			}
 			if before > 27 || elapsed > 10*time.Second {
 				rec.Count("realtime_cases_out_of_range", 1) // the measurement itself is off: not judged
 				return
